@@ -374,7 +374,18 @@ class Driver:
                             m.objective_direction = s["ad"]
                             s0 = m.optimize()
                     start = [enc(s0.fluxes[i]) for i in self.rids]
-                    sol = loopless_solution(m, fluxes=s0.fluxes)
+                    # the start vector in the shapes a caller may hold it in: the Series of the solution, the same
+                    # Series in another order (sorted by label, reversed), a plain dictionary
+                    self._lsn = getattr(self, "_lsn", 0) + 1
+                    fl = s0.fluxes
+                    how = self._lsn % 4
+                    if how == 1:
+                        fl = fl.sort_index()
+                    elif how == 2:
+                        fl = fl.iloc[::-1]
+                    elif how == 3:
+                        fl = {k: float(v) for k, v in reversed(list(fl.items()))}
+                    sol = loopless_solution(m, fluxes=fl)
             except Exception as e:
                 return {"raises": type(e).__name__, "start": start, "sol": NO_DIGEST}
             return {"raises": "none", "start": start, "sol": self.digest(sol)}
